@@ -427,6 +427,23 @@ def execute(case, ctx):
             exp.pop(k, None)
     changed_cls = "changed" if got != orig else "unchanged"
     out["abstract"].append(tag + "|" + changed_cls)
+    # ---- independent of the reference session (which runs the same code): a reference to outsourced data that an approved create / fix wrote
+    #      into a test file is a change that was applied - the data it names is then persisted (exactly one stored file, named by its sha256)
+    if approved & {"create", "fix"}:
+        import hashlib
+
+        from . import c13
+
+        for fn in sorted(k for k in got if k.rsplit("/", 1)[-1].startswith("test_") and k.endswith(".py")):
+            before_refs = {r[3] for r in c13.references(orig.get(fn, b"").decode("utf-8", "replace"))}
+            for r in c13.references(got[fn].decode("utf-8", "replace")):
+                if r[3] in before_refs:
+                    continue
+                ctx.count("probe_reference_to_outsourced_data_written")
+                stored = [k for k in got if k.startswith(".inline-snapshot/external/") and c13.ref_matches(r, k.rsplit("/", 1)[-1])]
+                if len(stored) != 1 or not stored[0].rsplit("/", 1)[-1].startswith(hashlib.sha256(got[stored[0]]).hexdigest()):
+                    viol("exactly-approved", "approved-reference-written-without-its-persisted-data",
+                         f"config {cfg}\n  effective approved set (spec) = {sorted(approved)}: {fn} now contains external({r[3]!r}) but the storage holds {sorted(k for k in got if k.startswith('.inline-snapshot/'))}")
     if got != exp:
         ks, d = diff_desc(exp, got)
         only_storage = all(k.startswith(".inline-snapshot/") for k in ks)
